@@ -52,6 +52,7 @@ def evaluate(cases, limit=20.0):
     impl_lines = pmap(implrun.count_line, [(p, o) for _, p, o in cases], limit=limit + 12.0)
     results = []
     ins = []
+    sent = []
     for (fam, p, o), il in zip(cases, impl_lines):
         case = gen.case_line(p, o)
         if isinstance(il, tuple):
@@ -62,9 +63,13 @@ def evaluate(cases, limit=20.0):
         r = Result(fam, p, o, case, il)
         r.partial = partial
         results.append(r)
-        ins.append('COUNT ' + case + ' @@ ' + (partial or il))
+        if il.startswith('CRASH Timeout') or il.startswith('CRASH Hang'):
+            # the implementation did not finish within its budget: the model (which has no budget) is not run on the case
+            r.same = True; r.raw = 'not compared: implementation over budget'
+            continue
+        ins.append('COUNT ' + case + ' @@ ' + (partial or il)); sent.append(r)
     outs = run_driver_parallel(ins)
-    for r, g in zip(results, outs):
+    for r, g in zip(sent, outs):
         r.raw = g
         m = ORACLE_RE.match(g)
         if m:
